@@ -1,4 +1,6 @@
-"""Registry: property id -> rule modules, explanation text for the evidence file."""
+"""Registry: property id -> rule modules, explanation text for the evidence file, MANIFEST texts."""
+
+PENDING = {}
 
 REGISTRY = {
     'C01': dict(
@@ -15,8 +17,35 @@ REGISTRY = {
             'non-empty strings are sent to the coroutine (except the priming send in new); D5 R-CAP - CSI parameters pushed are in 0..=9999 '
             'and a digit run that fails to parse saturates. NOT decided: stack exhaustion on the 32 KiB coroutine stack and aborts '
             'inside third-party code (A-STACK, A-LIB); println! on a closed stdout (A-IO).'),
+        level_text=('Static panic-freedom and termination argument over the type-checked program: every compiler-emitted Assert and every '
+                    'precondition-carrying library call reachable from the public entry points is discharged by an abstract interpreter '
+                    '(intervals x difference bounds, path-partitioned) under the Screen invariant; loops, the call-graph cycle, lock discipline, '
+                    'coroutine send protocol and the CSI parameter cap are decided structurally. Covers all inputs/histories at once, which sampling '
+                    'cannot; does not decide stack depth or third-party aborts.'),
+        assumes='A-DIM, A-ARG, A-GEN, A-LIB, A-IO, A-STACK, A-PUB, A-TOOL',
+        not_decided='Not decided: stack exhaustion on the coroutine stack, aborts inside third-party crates, println! on closed stdout.',
+        technique='abstract interpretation over MIR (zone domain, trace partitioning) + CFG/call-graph structural rules',
         rule=('one instance per (rule, function, construct): R-PANIC obligations keyed kind:description#ordinal, R-TERM per loop and '
               'per call-graph cycle, R-LOCK per lock site, R-SEND per send site, R-CAP per push of a CSI parameter; non-trivial = needed '
               'more than a constant check (all except the A-IO / poison notes)'),
+    ),
+    'C09': dict(
+        modules=['rules_c09'],
+        explanation=(
+            'Inductive invariant proof by abstract interpretation. Decided: D1 R-INV - the invariant I1 (1<=lines,columns), I2 (0<=cursor.y<lines, '
+            '0<=cursor.x<=columns), I3 (margins None or 0<=top<bottom<=lines-1), I6 (saved_columns) is established by Screen::new and re-established '
+            'at every exit state of every public mutator (all 44 listener methods, resize, ensure_*), started from an arbitrary state satisfying it, '
+            'for every Option/zero/margins partition; loop heads and contract calls re-check it. D2 - display() returns exactly `lines` rows '
+            '(result created empty, exactly one push per iteration of the loop over 0..lines, dominating the back edge). D3 - every string stored '
+            'under the key fg/bg comes from a colour table, the 256-entry palette, the rrggbb formatter with components <= 255, or is a literal colour. '
+            'Dirty-index bound (I4) is decided under C17. NOT decided: nothing of the listed components beyond the trusted base.'),
+        level_text=('Inductive invariant: the well-formedness invariant (cursor, margins, saved width, dirty indices) is shown to be established by '
+                    'the constructor and preserved by every public mutator from an arbitrary invariant state, by abstract interpretation of all paths; '
+                    'display() row count and the provenance of every fg/bg string are decided structurally / by value provenance. This is a proof over all '
+                    'histories by induction, not a sample of end states.'),
+        not_decided='Not decided: nothing of the listed components beyond the trusted base; cell fg/bg are covered through the cursor rendition they are copied from.',
+        technique='abstract interpretation (inductive invariant at every exit, loop head and contract call) + value provenance',
+        rule=('R-INV: one instance per (mutator, clause) over all exit states, plus per loop-head / call-site invariant obligation; R-LEN: 3 structural '
+              'clauses on display(); R-COLOUR: one instance per insert site of an fg/bg value'),
     ),
 }
